@@ -52,6 +52,12 @@ fn check_pattern(t: &mut Tally, pat: &str, names: &[String]) {
         return;
     }
     let nops = pat.matches(|c| c == '<' || c == '>').count();
+    // the statement names three causes of rejection; whether a pattern without a base compiles
+    // is not among them, so both verdicts are accepted there (the two compilers must agree)
+    if pat.starts_with(['<', '>']) && model.is_some() && !p.is_ok() && !d.is_ok() {
+        t.outcome("empty-base/rejected (unconstrained)");
+        return;
+    }
     match (&model, p.is_ok(), d.is_ok()) {
         (Some(m), true, true) => {
             t.outcome(if m.bounds.len() == 1 { "accept/one-bound" } else { "accept/two-bounds" });
@@ -73,7 +79,10 @@ fn check_pattern(t: &mut Tally, pat: &str, names: &[String]) {
         }
     }
     let (p, d, m) = (p.unwrap(), d.unwrap(), model.unwrap());
-    for name in names {
+    // the pattern's own text, and names built around it, are names too (a name equal to the
+    // pattern has no claim to match)
+    let own = [pat.to_string(), format!("{}-1", pat), format!("{}-{}", m.base, pat), format!("{}{}", pat, pat)];
+    for name in names.iter().chain(own.iter()) {
         t.evals += 1;
         t.validated += 1;
         let got = guard(|| (p.matches(name), d.matches(name)));
@@ -175,6 +184,7 @@ fn char_names() -> Vec<String> {
     for n in [
         "p=-1", "p-=1", "=-1", "p-1=", "p-1-1", "pp-11", "p-p-1", "p-1-p", "p--1", "-p-1", "1-p-1",
         "p-1-11", "p-111", "p=", "=", "p=-", "p-p-p-1", "11-1",
+        "p>1", "p>=1", "p<1", "p-1>", "p>-1", "p<1-1", "p>=1-1", ">-1", "p->1", "p-<1", "p>=1<11", "p>-", "<", ">=",
     ] {
         v.push(n.to_string());
     }
